@@ -1102,3 +1102,409 @@ Proof.
     vm_compute. repeat constructor; simpl; intuition discriminate.
   - intros (H & _). vm_compute in H. inversion H as [|? ? Hn _]. apply Hn. left. reflexivity.
 Qed.
+(* ========================================================================================== *)
+(* 8. replace_cell: references to the old object are redirected to the new one                 *)
+
+Definition member (L : lib) (x : obj) : Prop :=
+  match x with OCell i => In i (l_carr L) | ORaw r => In r (l_rarr L) end.
+Definition oname (L : lib) (x : obj) : name :=
+  match x with OCell i => cname L i | ORaw r => rname L r end.
+
+Lemma resolve_byname_iff L s x : names_ok L ->
+  (resolve L (ByName s) = Some x <-> member L x /\ oname L x = s).
+Proof.
+  intros (Hn1 & Hn2 & Hn3). simpl. unfold get_cell, get_rawcell. split.
+  - destruct (find_by (cname L) s (l_carr L)) as [i|] eqn:G.
+    + intros E. inversion E; subst. apply find_by_Some in G. exact G.
+    + destruct (find_by (rname L) s (l_rarr L)) as [r|] eqn:G2; [|discriminate].
+      intros E. inversion E; subst. apply find_by_Some in G2. exact G2.
+  - intros [Hm Hs]. destruct x as [i|r]; simpl in *.
+    + rewrite (find_by_unique (cname L) s (l_carr L) i Hn1 Hm Hs). reflexivity.
+    + assert (find_by (cname L) s (l_carr L) = None) as ->.
+      { apply find_by_None. intros i Hi E. apply (Hn3 i r Hi Hm). congruence. }
+      rewrite (find_by_unique (rname L) s (l_rarr L) r Hn2 Hm Hs). reflexivity.
+Qed.
+
+Lemma member_name_inj L x y : names_ok L ->
+  member L x -> member L y -> oname L x = oname L y -> x = y.
+Proof.
+  intros (Hn1 & Hn2 & Hn3) Hx Hy E. destruct x as [i|r], y as [j|q]; simpl in *.
+  - f_equal. apply (NoDup_map_inj (cname L) (l_carr L) i j Hn1 Hx Hy E).
+  - exfalso. apply (Hn3 i q Hx Hy E).
+  - exfalso. apply (Hn3 j r Hy Hx). auto.
+  - f_equal. apply (NoDup_map_inj (rname L) (l_rarr L) r q Hn2 Hx Hy E).
+Qed.
+
+Definition is_pointer (t : target) : Prop := match t with ByName _ => False | _ => True end.
+
+(* the pointers held by cell i designate members *)
+Definition refs_closed (L : lib) (i : nat) : Prop :=
+  forall t, In t (c_refs (cell_at L i)) ->
+    match t with ToCell c => In c (l_carr L) | ToRaw r => In r (l_rarr L) | ByName _ => True end.
+
+(* one reference before / after replacing oldo by newo *)
+Definition replace_ref_rel (L L' : lib) (oldo newo : obj) (t t' : target) : Prop :=
+  (resolve L t = Some oldo -> resolve L' t' = Some newo) /\
+  (forall x, resolve L t = Some x -> x <> oldo -> resolve L' t' = Some x) /\
+  resolve L' t' <> Some oldo.
+
+Lemma retarget_spec L ca ra mc mr nt oldo newo :
+  let o := oname L oldo in
+  let n := oname L newo in
+  let L' := retarget_lib L ca ra (retarget mc mr nt o n) in
+  names_ok L -> names_ok L' -> NoDup ca ->
+  member L oldo -> ~ member L' oldo -> member L' newo -> newo <> oldo ->
+  (forall x, member L x -> x <> oldo -> member L' x) ->
+  is_pointer nt -> resolve L' nt = Some newo ->
+  forall m, In m ca ->
+    (forall t, In t (c_refs (cell_at L m)) -> is_pointer t ->
+        (matches mc mr t <-> resolve L t = Some oldo)) ->
+    Forall2 (replace_ref_rel L L' oldo newo) (c_refs (cell_at L m)) (c_refs (cell_at L' m)).
+Proof.
+  intros o n L' Hn Hn' Hnd Hmo Hnmo Hmn Hne Hstay Hpnt Hnt m Hm HP.
+  assert (Hon : forall x, oname L' x = oname L x).
+  { intros [i|r]; simpl; [apply retarget_lib_cname | reflexivity]. }
+  unfold L' at 2. rewrite retarget_lib_refs by exact Hnd.
+  assert (memb m ca = true) as -> by (apply memb_In; exact Hm).
+  apply Forall2_map_r. intros t Ht. unfold replace_ref_rel.
+  destruct (retarget_cases mc mr nt o n t) as [[Hmt E]|[Hmt E]].
+  - (* a matching pointer *)
+    assert (is_pointer t) as Hpt by (destruct t; simpl in *; auto).
+    rewrite E. fold L'. rewrite Hnt. split; [auto|]. split; [|congruence].
+    intros x Hx Hxo. exfalso. apply Hxo. apply (HP t Ht Hpt) in Hmt. congruence.
+  - destruct t as [c|r|s].
+    + rewrite E. split; [|split].
+      * intros Hx. exfalso. apply Hmt. apply (HP _ Ht I). exact Hx.
+      * intros x Hx _. exact Hx.
+      * intros Hx. apply Hmt. apply (HP _ Ht I). exact Hx.
+    + rewrite E. split; [|split].
+      * intros Hx. exfalso. apply Hmt. apply (HP _ Ht I). exact Hx.
+      * intros x Hx _. exact Hx.
+      * intros Hx. apply Hmt. apply (HP _ Ht I). exact Hx.
+    + assert (Hres' : forall s0, resolve L' (ByName s0) <> Some oldo).
+      { intros s0 Hx. apply (resolve_byname_iff L' s0 oldo Hn') in Hx. destruct Hx as [Hx _]. contradiction. }
+      assert (Hnew' : resolve L' (ByName n) = Some newo).
+      { apply (resolve_byname_iff L' n newo Hn'). split; auto. rewrite Hon. reflexivity. }
+      split; [|split].
+      * intros Hx. apply (resolve_byname_iff L s oldo Hn) in Hx. destruct Hx as [_ Hs].
+        fold o in Hs. subst s. destruct E as [E|(_ & _ & E)]; rewrite E; [|exact Hnew'].
+        (* names equal: the rewriting is switched off only when o = n *)
+        simpl in E. destruct (N.eqb_spec o n) as [Eon|Eon]; simpl in E.
+        -- rewrite Eon. exact Hnew'.
+        -- rewrite N.eqb_refl in E. inversion E. congruence.
+      * intros x Hx Hxo. pose proof Hx as Hx0. apply (resolve_byname_iff L s x Hn) in Hx. destruct Hx as [Hmx Hs].
+        assert (s <> o) as Hso.
+        { intros ->. apply Hxo. apply (member_name_inj L x oldo Hn Hmx Hmo). exact Hs. }
+        destruct E as [E|(E1 & _)]; [|contradiction]. rewrite E.
+        apply (resolve_byname_iff L' s x Hn'). split; [apply Hstay; auto|]. rewrite Hon. exact Hs.
+      * destruct E as [E|(_ & _ & E)]; rewrite E; apply Hres'.
+Qed.
+
+Lemma obj_eq_dec (x y : obj) : {x = y} + {x <> y}.
+Proof. decide equality; apply Nat.eq_dec. Qed.
+
+(* what a replacement guarantees *)
+Definition replace_post (L L' : lib) (oldo newo : obj) : Prop :=
+  (* raw cells, names and tags of every cell are untouched; cells outside the library too *)
+  l_raws L' = l_raws L /\ length (l_cells L') = length (l_cells L) /\
+  (forall j, cname L' j = cname L j /\ c_ptags (cell_at L' j) = c_ptags (cell_at L j) /\
+             c_ltags (cell_at L' j) = c_ltags (cell_at L j)) /\
+  (forall j, ~ In j (l_carr L') -> c_refs (cell_at L' j) = c_refs (cell_at L j)) /\
+  (* the new object takes the place of the old one in the arrays *)
+  ~ member L' oldo /\ member L' newo /\
+  (forall x, x <> oldo -> x <> newo -> (member L' x <-> member L x)) /\
+  (* every reference of every member: designated old -> designates new; designated something
+     else -> still does; none designates the removed object *)
+  (forall m, In m (l_carr L') ->
+     Forall2 (replace_ref_rel L L' oldo newo) (c_refs (cell_at L m)) (c_refs (cell_at L' m))).
+
+Lemma replace_post_gen L ca ra mc mr nt oldo newo :
+  let L' := retarget_lib L ca ra (retarget mc mr nt (oname L oldo) (oname L newo)) in
+  WF L -> WF L' ->
+  member L oldo -> ~ member L' oldo -> member L' newo -> newo <> oldo ->
+  (forall x, x <> oldo -> x <> newo -> (member L' x <-> member L x)) ->
+  is_pointer nt -> resolve L' nt = Some newo ->
+  (forall m, In m ca -> forall t, In t (c_refs (cell_at L m)) -> is_pointer t ->
+      (matches mc mr t <-> resolve L t = Some oldo)) ->
+  replace_post L L' oldo newo.
+Proof.
+  intros L' (_ & Hn & _) (_ & Hn' & _) Hmo Hnmo Hmn Hne Hiff Hpnt Hnt HP.
+  assert (Hnd : NoDup ca).
+  { destruct Hn' as (H & _). simpl in H. eapply NoDup_map_NoDup; eauto. }
+  unfold replace_post. split; [reflexivity|]. split; [apply retarget_lib_length|].
+  split; [intros j; split; [apply retarget_lib_cname | split; [apply retarget_lib_ptags | apply retarget_lib_ltags]]|].
+  split.
+  { intros j Hj. unfold L'. rewrite retarget_lib_refs by exact Hnd. simpl in Hj.
+    apply memb_false in Hj. rewrite Hj. reflexivity. }
+  split; [exact Hnmo|]. split; [exact Hmn|]. split; [exact Hiff|].
+  intros m Hm. simpl in Hm. apply retarget_spec; auto; [|apply HP; exact Hm].
+  intros x Hx Hxo. destruct (obj_eq_dec x newo) as [->|Hxn]; [exact Hmn|].
+  apply (Hiff x Hxo Hxn). exact Hx.
+Qed.
+
+(* closedness gives the agreement between the switch's tests and what a pointer designates *)
+Lemma match_cell_old L old m :
+  names_ok L -> In old (l_carr L) -> refs_closed L m ->
+  forall t, In t (c_refs (cell_at L m)) -> is_pointer t ->
+    (matches (fun c => Nat.eqb c old) (fun r => N.eqb (rname L r) (cname L old)) t <->
+     resolve L t = Some (OCell old)).
+Proof.
+  intros (_ & _ & Hn3) Hold Hcl t Ht Hp. specialize (Hcl t Ht). destruct t as [c|r|s]; simpl.
+  - rewrite Nat.eqb_eq. split; [intros ->; reflexivity | intros E; inversion E; reflexivity].
+  - split; [|discriminate]. rewrite N.eqb_eq. intros E. exfalso. apply (Hn3 old r Hold Hcl). auto.
+  - destruct Hp.
+Qed.
+
+Lemma match_raw_old L old m :
+  names_ok L -> In old (l_rarr L) -> refs_closed L m ->
+  forall t, In t (c_refs (cell_at L m)) -> is_pointer t ->
+    (matches (fun c => N.eqb (cname L c) (rname L old)) (fun r => Nat.eqb r old) t <->
+     resolve L t = Some (ORaw old)).
+Proof.
+  intros (_ & _ & Hn3) Hold Hcl t Ht Hp. specialize (Hcl t Ht). destruct t as [c|r|s]; simpl.
+  - split; [|discriminate]. rewrite N.eqb_eq. intros E. exfalso. apply (Hn3 c old Hcl Hold). auto.
+  - rewrite Nat.eqb_eq. split; [intros ->; reflexivity | intros E; inversion E; reflexivity].
+  - destruct Hp.
+Qed.
+
+Theorem replace_retargets_lemma L o :
+  WF L -> closed L -> op_pre L o ->
+  match o with
+  | OpReplaceCC old new => refs_closed L new -> replace_post L (step L o) (OCell old) (OCell new)
+  | OpReplaceRC old new => refs_closed L new -> replace_post L (step L o) (ORaw old) (OCell new)
+  | OpReplaceCR old new => replace_post L (step L o) (OCell old) (ORaw new)
+  | OpReplaceRR old new => replace_post L (step L o) (ORaw old) (ORaw new)
+  | _ => True
+  end.
+Proof.
+  intros HWF Hcl Hpre. pose proof (step_WF_lemma L o HWF Hpre) as HWF'.
+  pose proof HWF as (Hids & Hn & Ha). pose proof Hn as (Hn1 & Hn2 & Hn3).
+  assert (Hndc : NoDup (l_carr L)) by (eapply NoDup_map_NoDup; eauto).
+  assert (Hndr : NoDup (l_rarr L)) by (eapply NoDup_map_NoDup; eauto).
+  destruct Hcl as [Hcl1 Hcl2].
+  assert (Hclm : forall m, In m (l_carr L) -> refs_closed L m).
+  { intros m Hm t Ht. apply (Hcl1 m t Hm Ht). }
+  destruct o; auto; simpl in HWF'.
+  - (* cell -> cell *)
+    destruct Hpre as (Hold & Hnew & Hnin & Hname & Hcyc). intros Hcn. simpl step.
+    unfold replace_cc in *.
+    apply (replace_post_gen L (replace_first old new (l_carr L)) (l_rarr L) _ _ (ToCell new) (OCell old) (OCell new));
+      simpl; auto.
+    + rewrite In_replace_first_iff by auto. intros [E|[_ E]]; [subst; contradiction | congruence].
+    + rewrite In_replace_first_iff by auto. auto.
+    + intros E. inversion E. subst. contradiction.
+    + intros [i|r] Hx1 Hx2; simpl; [|tauto]. rewrite In_replace_first_iff by auto.
+      assert (i <> old) by congruence. assert (i <> new) by congruence. tauto.
+    + intros m Hm. apply In_replace_first in Hm.
+      apply match_cell_old; auto. destruct Hm as [->|Hm]; auto.
+  - (* raw cell -> cell *)
+    destruct Hpre as (Hold & Hnew & Hnin & Hname & Hcyc). intros Hcn. simpl step.
+    unfold replace_rc in *. assert (memb old (l_rarr L) = true) as Emb by (apply memb_In; exact Hold).
+    rewrite Emb in *.
+    apply (replace_post_gen L (l_carr L ++ [new]) (remove_unordered old (l_rarr L)) _ _ (ToCell new) (ORaw old) (OCell new));
+      simpl; auto.
+    + rewrite In_remove_unordered by auto. tauto.
+    + apply in_app_iff. right. left. reflexivity.
+    + discriminate.
+    + intros [i|r] Hx1 Hx2; simpl.
+      * rewrite in_app_iff. simpl. assert (new <> i) by congruence. tauto.
+      * rewrite In_remove_unordered by auto. assert (r <> old) by congruence. tauto.
+    + intros m Hm. apply in_app_iff in Hm.
+      apply match_raw_old; auto. destruct Hm as [Hm|[<-|[]]]; auto.
+  - (* cell -> raw cell *)
+    destruct Hpre as (Hold & Hnew & Hnin & Hname). simpl step.
+    unfold replace_cr in *. assert (memb old (l_carr L) = true) as Emb by (apply memb_In; exact Hold).
+    rewrite Emb in *.
+    apply (replace_post_gen L (remove_unordered old (l_carr L)) (l_rarr L ++ [new]) _ _ (ToRaw new) (OCell old) (ORaw new));
+      simpl; auto.
+    + rewrite In_remove_unordered by auto. tauto.
+    + apply in_app_iff. right. left. reflexivity.
+    + discriminate.
+    + intros [i|r] Hx1 Hx2; simpl.
+      * rewrite In_remove_unordered by auto. assert (i <> old) by congruence. tauto.
+      * rewrite in_app_iff. simpl. assert (new <> r) by congruence. tauto.
+    + intros m Hm. apply In_remove_unordered in Hm; auto. destruct Hm as [Hm _].
+      apply match_cell_old; auto.
+  - (* raw cell -> raw cell *)
+    destruct Hpre as (Hold & Hnew & Hnin & Hname). simpl step.
+    unfold replace_rr in *.
+    apply (replace_post_gen L (l_carr L) (replace_first old new (l_rarr L)) _ _ (ToRaw new) (ORaw old) (ORaw new));
+      simpl; auto.
+    + rewrite In_replace_first_iff by auto. intros [E|[_ E]]; [subst; contradiction | congruence].
+    + rewrite In_replace_first_iff by auto. auto.
+    + intros E. inversion E. subst. contradiction.
+    + intros [i|r] Hx1 Hx2; simpl; [tauto|]. rewrite In_replace_first_iff by auto.
+      assert (r <> old) by congruence. assert (r <> new) by congruence. tauto.
+    + intros m Hm. apply match_raw_old; auto.
+Qed.
+(* ========================================================================================== *)
+(* 9. top_level                                                                                *)
+
+Lemma mget_mset k k' v m : mget k (mset k' v m) = if N.eqb k' k then Some v else mget k m.
+Proof.
+  induction m as [|[k0 v0] tl IH]; simpl.
+  - reflexivity.
+  - destruct (N.eqb_spec k0 k') as [->|Hne]; simpl.
+    + destruct (N.eqb k' k); reflexivity.
+    + destruct (N.eqb_spec k0 k) as [->|Hne2].
+      * destruct (N.eqb_spec k' k); [congruence | reflexivity].
+      * exact IH.
+Qed.
+
+(* the map built by setting nm j -> j for every j of a list, in order *)
+Definition set_all (nm : nat -> name) (l : list nat) (m : dmap) : dmap :=
+  fold_left (fun m j => mset (nm j) j m) l m.
+
+Lemma set_all_sound nm l : forall m k j,
+  mget k (set_all nm l m) = Some j -> (In j l /\ nm j = k) \/ mget k m = Some j.
+Proof.
+  unfold set_all. induction l as [|a tl IH]; intros m k j H; simpl in *; auto.
+  apply IH in H. destruct H as [[H1 H2]|H]; auto.
+  rewrite mget_mset in H. destruct (N.eqb_spec (nm a) k); auto.
+  inversion H; subst. auto.
+Qed.
+
+Lemma set_all_keeps nm l : forall m k j,
+  mget k m = Some j -> exists j', mget k (set_all nm l m) = Some j'.
+Proof.
+  unfold set_all. induction l as [|a tl IH]; intros m k j H; simpl; eauto.
+  destruct (N.eqb_spec (nm a) k) as [E|E].
+  - apply (IH _ k a). rewrite mget_mset. rewrite E, N.eqb_refl. reflexivity.
+  - apply (IH _ k j). rewrite mget_mset. apply N.eqb_neq in E. rewrite E. exact H.
+Qed.
+
+Lemma set_all_complete nm l : forall m j,
+  In j l -> exists j', mget (nm j) (set_all nm l m) = Some j'.
+Proof.
+  induction l as [|a tl IH]; intros m j H; [destruct H|]. destruct H as [->|H].
+  - unfold set_all. simpl. apply (set_all_keeps nm tl _ (nm j) j).
+    rewrite mget_mset, N.eqb_refl. reflexivity.
+  - unfold set_all. simpl. apply IH. exact H.
+Qed.
+
+Lemma set_all_app nm l1 l2 m : set_all nm (l1 ++ l2) m = set_all nm l2 (set_all nm l1 m).
+Proof. unfold set_all. apply fold_left_app. Qed.
+
+Fixpoint rtargets (refs : list target) : list nat :=
+  match refs with
+  | [] => []
+  | ToRaw r :: tl => r :: rtargets tl
+  | _ :: tl => rtargets tl
+  end.
+
+Lemma In_rtargets refs r : In r (rtargets refs) <-> In (ToRaw r) refs.
+Proof.
+  induction refs as [|t tl IH]; simpl; [tauto|].
+  destruct t; simpl; rewrite IH; split; intros H; try tauto.
+  - destruct H as [H|H]; auto. discriminate.
+  - destruct H as [->|H]; auto.
+  - destruct H as [H|H]; auto. inversion H; auto.
+  - destruct H as [H|H]; auto. discriminate.
+Qed.
+
+Lemma direct_cell_deps_set_all L i m :
+  direct_cell_deps L i m = set_all (cname L) (ctargets (c_refs (cell_at L i))) m.
+Proof.
+  unfold direct_cell_deps, set_all. generalize (c_refs (cell_at L i)). intros refs. revert m.
+  induction refs as [|t tl IH]; intros m; simpl; auto. destruct t; simpl; apply IH.
+Qed.
+
+Lemma direct_cell_raw_deps_set_all L i m :
+  direct_cell_raw_deps L i m = set_all (rname L) (rtargets (c_refs (cell_at L i))) m.
+Proof.
+  unfold direct_cell_raw_deps, set_all. generalize (c_refs (cell_at L i)). intros refs. revert m.
+  induction refs as [|t tl IH]; intros m; simpl; auto. destruct t; simpl; apply IH.
+Qed.
+
+Lemma direct_raw_deps_set_all L r m :
+  direct_raw_deps L r m = set_all (rname L) (r_deps (raw_at L r)) m.
+Proof. reflexivity. Qed.
+
+Lemma fold_set_all_flat_map nm (g : nat -> list nat) arr : forall m,
+  fold_left (fun m i => set_all nm (g i) m) arr m = set_all nm (flat_map g arr) m.
+Proof.
+  induction arr as [|a tl IH]; intros m; simpl; auto. rewrite set_all_app. apply IH.
+Qed.
+
+Lemma fold_left_ext {A B} (f g : A -> B -> A) l : (forall a b, f a b = g a b) ->
+  forall a, fold_left f l a = fold_left g l a.
+Proof. intros H. induction l as [|x tl IH]; intros a; simpl; auto. rewrite H. apply IH. Qed.
+
+Lemma top_cell_map_eq L :
+  top_cell_map L = set_all (cname L) (flat_map (fun i => ctargets (c_refs (cell_at L i))) (l_carr L)) [].
+Proof.
+  unfold top_cell_map. rewrite <- fold_set_all_flat_map.
+  apply fold_left_ext. intros m i. apply direct_cell_deps_set_all.
+Qed.
+
+Lemma top_raw_map_eq L :
+  top_raw_map L =
+  set_all (rname L)
+    (flat_map (fun i => rtargets (c_refs (cell_at L i))) (l_carr L) ++
+     flat_map (fun r => r_deps (raw_at L r)) (l_rarr L)) [].
+Proof.
+  unfold top_raw_map. rewrite set_all_app. rewrite <- !fold_set_all_flat_map.
+  f_equal. apply fold_left_ext. intros m i. apply direct_cell_raw_deps_set_all.
+Qed.
+
+Lemma not_mapped_true m k v : not_mapped m k v = true <-> mget k m <> Some v.
+Proof.
+  unfold not_mapped. destruct (mget k m) as [v'|].
+  - rewrite negb_true_iff, Nat.eqb_neq. split; congruence.
+  - split; [discriminate | reflexivity].
+Qed.
+
+(* Top-level cells are exactly the members that no member points to; the same for raw cells,
+   where a pointer is a RawCell reference of a member cell or a dependency of a member raw cell *)
+Theorem top_level_spec_lemma L : WF L -> closed L ->
+  (forall i, In i (fst (top_level L)) <->
+     In i (l_carr L) /\ forall m, In m (l_carr L) -> ~ In (ToCell i) (c_refs (cell_at L m))) /\
+  (forall r, In r (snd (top_level L)) <->
+     In r (l_rarr L) /\
+     (forall m, In m (l_carr L) -> ~ In (ToRaw r) (c_refs (cell_at L m))) /\
+     (forall q, In q (l_rarr L) -> ~ In r (r_deps (raw_at L q)))).
+Proof.
+  intros (Hids & (Hn1 & Hn2 & Hn3) & Ha) (Hcl1 & Hcl2). split.
+  - intros i. unfold top_level. simpl. rewrite filter_In, not_mapped_true, top_cell_map_eq.
+    set (tg := flat_map (fun i => ctargets (c_refs (cell_at L i))) (l_carr L)).
+    assert (Htg : forall j, In j tg <-> exists m, In m (l_carr L) /\ In (ToCell j) (c_refs (cell_at L m))).
+    { intros j. unfold tg. rewrite in_flat_map. split; intros (m & H1 & H2); exists m; split; auto;
+        apply In_ctargets; exact H2. }
+    split; intros [Hi H]; split; auto.
+    + intros m Hm Hedge. apply H.
+      assert (In i tg) as Hit by (apply Htg; eauto).
+      destruct (set_all_complete (cname L) tg [] i Hit) as (j' & Hj'). rewrite Hj'. f_equal.
+      apply set_all_sound in Hj'. destruct Hj' as [[Hj1 Hj2]|Hj]; [|discriminate].
+      apply Htg in Hj1. destruct Hj1 as (m' & Hm' & He').
+      pose proof (Hcl1 m' _ Hm' He') as Hj'c. simpl in Hj'c.
+      apply (NoDup_map_inj (cname L) (l_carr L) j' i Hn1 Hj'c Hi Hj2).
+    + intros Hget. apply set_all_sound in Hget. destruct Hget as [[H1 _]|H1]; [|discriminate].
+      apply Htg in H1. destruct H1 as (m & Hm & He). apply (H m Hm He).
+  - intros r. unfold top_level. simpl. rewrite filter_In, not_mapped_true, top_raw_map_eq.
+    set (tg := flat_map (fun i => rtargets (c_refs (cell_at L i))) (l_carr L) ++
+               flat_map (fun r => r_deps (raw_at L r)) (l_rarr L)).
+    assert (Htg : forall j, In j tg <->
+              (exists m, In m (l_carr L) /\ In (ToRaw j) (c_refs (cell_at L m))) \/
+              (exists q, In q (l_rarr L) /\ In j (r_deps (raw_at L q)))).
+    { intros j. unfold tg. rewrite in_app_iff, !in_flat_map. split; intros [(m & H1 & H2)|(m & H1 & H2)];
+        [left|right|left|right]; exists m; split; auto; apply In_rtargets; exact H2. }
+    assert (Hmem : forall j, In j tg -> In j (l_rarr L)).
+    { intros j Hj. apply Htg in Hj. destruct Hj as [(m & Hm & He)|(q & Hq & He)].
+      - apply (Hcl1 m _ Hm He).
+      - apply (Hcl2 q j Hq He). }
+    split.
+    + intros [Hr H]. split; auto.
+      assert (Hnot : ~ In r tg).
+      { intros Hit. apply H.
+        destruct (set_all_complete (rname L) tg [] r Hit) as (j' & Hj'). rewrite Hj'. f_equal.
+        apply set_all_sound in Hj'. destruct Hj' as [[Hj1 Hj2]|Hj]; [|discriminate].
+        apply (NoDup_map_inj (rname L) (l_rarr L) j' r Hn2 (Hmem j' Hj1) Hr Hj2). }
+      split.
+      * intros m Hm He. apply Hnot. apply Htg. left. eauto.
+      * intros q Hq He. apply Hnot. apply Htg. right. eauto.
+    + intros (Hr & H1 & H2). split; auto. intros Hget.
+      apply set_all_sound in Hget. destruct Hget as [[Hin _]|Hget]; [|discriminate].
+      apply Htg in Hin. destruct Hin as [(m & Hm & He)|(q & Hq & He)].
+      * apply (H1 m Hm He).
+      * apply (H2 q Hq He).
+Qed.
